@@ -25,6 +25,7 @@ CONSTANTS N,          \* chunks that may be accepted in total (over all generati
           MaxGen,     \* generations (Destroy + new bufferer on the same directory)
           DirUsable,  \* FALSE: the queue directory cannot be opened (chunk saving disabled, sendAllAtEnd)
           IoFaults,   \* budget of read errors
+          WriteFaults, \* budget of write errors (util.WriteFileAt fails: full disk, file-size limit, I/O error)
           EarlyHandBack  \* may the consumer hand chunks back before the output channel is closed?
 
 NOCHUNK == [id |-> 0, loaded |-> FALSE, saved |-> FALSE]
@@ -54,7 +55,7 @@ Volatile0 == [
   delivered |-> <<>>, savedAtStop |-> {}, skipped |-> {} ]
 
 S0 == Volatile0 @@ [
-  gen |-> 1, nextId |-> 1, size |-> [i \in 1..N |-> 0], disk |-> {}, zero |-> {}, io |-> IoFaults,
+  gen |-> 1, nextId |-> 1, size |-> [i \in 1..N |-> 0], disk |-> {}, zero |-> {}, io |-> IoFaults, wio |-> WriteFaults,
   \* history over all generations
   confirmed |-> {}, droppedSet |-> {}, lost |-> {}, everOnDisk |-> {}, slack |-> 0,
   fifoViol |-> FALSE, dblConfirm |-> FALSE, redeliverViol |-> FALSE, contentViol |-> FALSE ]
@@ -80,6 +81,10 @@ UlCheck(p) ==
 UlWrite(p) ==
   /\ s.ul[p].st = "write"
   /\ s' = [s EXCEPT !.ul[p].st = "gauge", !.disk = @ \cup {s.ul[p].c.id}, !.everOnDisk = @ \cup {s.ul[p].c.id}]
+\* ... or fails: ioErrorsTotal.Inc(), no file under the chunk's name (the temporary file is removed), UnloadChunk returns false
+UlWriteFails(p) ==
+  /\ s.ul[p].st = "write" /\ s.wio > 0
+  /\ s' = [s EXCEPT !.ul[p].st = "ret", !.ul[p].res = "ioerr", !.wio = @ - 1, !.cIo = @ + 1]
 \* persistentChunks.Inc(); persistentChunkBytes.Add(len); chunk.Data = nil; chunk.Saved = true
 UlGauge(p) ==
   /\ s.ul[p].st = "gauge"
@@ -271,7 +276,7 @@ StartFeeder ==
 StartEnd == s.rpc = "started" /\ s' = [s EXCEPT !.rpc = "run"]
 
 (***************************** next-state relation *****************************)
-UlNext   == \E p \in Procs : UlCheck(p) \/ UlWrite(p) \/ UlGauge(p) \/ UlReturn(p)
+UlNext   == \E p \in Procs : UlCheck(p) \/ UlWrite(p) \/ UlWriteFails(p) \/ UlGauge(p) \/ UlReturn(p)
 AccNext  == (\E sz \in Sizes : AcceptStart(sz)) \/ AccDecideDo \/ AccDecided \/ AccUnloaded \/ AccEnqDo \/ AccEnq \/ AcceptEnd
             \/ DestroyBegin \/ DestroyWaited \/ DestroyClose \/ DestroySignal \/ DestroyEnd
 FeedNext == FPopDo \/ FPop \/ FPopClosed \/ (\E r \in {"ok", "err", "corrupt"} : FLoad(r)) \/ FPushDo \/ FPush \/ FPushAbort
